@@ -71,7 +71,7 @@ def build_domain(gd, d, rng):
     return (g, topo), (zcol, PP[pop]([Variable(n) for n in sorted(gd["nodes"])]))
 
 
-def run_case(ctx, gd, doms, out, cond, rng):
+def run_case(ctx, gd, doms, out, cond, rng, wrapper=0):
     from y0.algorithm.counterfactual_transport.api import (transport_conditional_counterfactual_query,
                                                            transport_unconditional_counterfactual_query)
     from y0.dsl import Zero
@@ -79,10 +79,38 @@ def run_case(ctx, gd, doms, out, cond, rng):
     g = gg.to_nx(gd)
     built = [build_domain(gd, d, rng) for d in doms]
     dgs, dd = [b[0] for b in built], [b[1] for b in built]
-    kernel.LOG.reset_case({"graph": gd, "domains": doms, "outcomes": out, "conditions": cond})
+    via = "wrapper" if wrapper else "direct"
+    kernel.LOG.reset_case({"graph": gd, "domains": doms, "outcomes": out, "conditions": cond, "via": via})
     res = "!"
     try:
-        if cond:
+        if wrapper:
+            # the CFTDomain / valued-variable call form (unconditional_cft, conditional_cft)
+            from y0.algorithm.counterfactual_transport.api import CFTDomain, conditional_cft, unconditional_cft
+            from y0.dsl import CounterfactualVariable, Variable
+
+            def valued(x):
+                v = gev.var_of(x)
+                star = None if x[2] is None else bool(x[2])
+                if isinstance(v, CounterfactualVariable):
+                    return CounterfactualVariable(name=v.name, star=star, interventions=v.interventions)
+                return Variable(v.name, star=star)
+
+            cds = []
+            for j, ((dg, topo), (zcol, pp)) in enumerate(zip(dgs, dd)):
+                kw = {"graph": dg, "policy_variables": zcol,
+                      "population": pp if j % 2 else Variable(doms[j]["population"])}
+                if j % 3 != 2:
+                    kw["ordering"] = topo
+                cds.append(CFTDomain(**kw))
+            kernel.count("C09:wrapper-calls")
+            if cond:
+                res = conditional_cft(outcomes=[valued(x) for x in out], conditions=[valued(x) for x in cond],
+                                      target_domain_graph=g, domains=cds)
+            else:
+                ev1 = [valued(x) for x in out]
+                res = unconditional_cft(event=ev1[0] if len(ev1) == 1 and wrapper == 2 else ev1, target_domain_graph=g,
+                                        domains=cds)
+        elif cond:
             res = transport_conditional_counterfactual_query(outcomes=gev.to_pairs(out), conditions=gev.to_pairs(cond),
                                                              target_domain_graph=g, domain_graphs=dgs, domain_data=dd)
         else:
@@ -127,7 +155,7 @@ def run_shard(ctx):
             if not out or cls == "contradictory_pair":
                 continue
         classes[cls] = classes.get(cls, 0) + 1
-        run_case(ctx, gd, doms, out, cond, rng)
+        run_case(ctx, gd, doms, out, cond, rng, wrapper=(0, 0, 0, 1, 2)[i % 5])
     ctx.extras["event_classes"] = classes
 
 
